@@ -592,6 +592,79 @@ for kind, r in zip(UKINDS, run_parallel(UKINDS, udp_session_stalled, workers=3))
         chk.violation('stall.udp-session-not-read', f'blocked:api:{kind}', f'GET /live -> {r["api_live"]}, processes alive: {r["alive"]}', rp)
     samples.append({'udp_session_stalled': r})
 
+# ---- tunnels blocked on a slow peer, all of them multiplexed over ONE upstream connection (QUIC connector -> QUIC
+#      listener): whatever the blocked ones hold (stream windows, connection window, buffers), the other tunnels on that
+#      connection and new requests through it are still served. 8 and (thorough) 24 clients that never read a flood.
+def quic_tunnels_blocked(nblocked):
+    q = {k: free_port() for k in ('quic', 'hapi', 'http', 'fapi')}
+    hopq = Proxy({'listeners': [{'name': 'quic', 'type': 'quic', 'bind': f"127.0.0.1:{q['quic']}", 'tls': TLSS}], 'connectors': [{'name': 'direct'}], 'rules': [{'target': 'direct'}],
+                  'metrics': {'bind': f"127.0.0.1:{q['hapi']}", 'ui': None}}, 'c14qh')
+    hopq.api_port = q['hapi']
+    if not hopq.start([q['hapi']]):
+        return {'error': 'hop: ' + hopq.log()[-300:]}
+    front = Proxy({'listeners': [{'name': 'http', 'bind': f"127.0.0.1:{q['http']}"}],
+                   'connectors': [{'name': 'c', 'type': 'quic', 'server': 'localhost', 'port': q['quic'], 'bind': '127.0.0.1:0', 'tls': TLSC}], 'rules': [{'target': 'c'}],
+                   'metrics': {'bind': f"127.0.0.1:{q['fapi']}", 'ui': None}}, 'c14qf')
+    front.api_port = q['fapi']
+    if not front.start([q['http'], q['fapi']]):
+        hopq.stop()
+        return {'error': 'front: ' + front.log()[-300:]}
+    held = []
+    try:
+        healthy, code, head, rest = http_connect(q['http'], f'127.0.0.1:{echo.port}', timeout=DEADLINE)
+        if code != 200:
+            return {'error': f'healthy tunnel refused: {head[:40]!r}'}
+        healthy.settimeout(DEADLINE)
+        healthy.sendall(b'first'); 
+        if recv_exact(healthy, 5, DEADLINE) != b'first':
+            return {'error': 'healthy tunnel does not echo'}
+        for i in range(nblocked):
+            s_, code, head, rest = http_connect(q['http'], f'127.0.0.1:{flood.port}', timeout=DEADLINE)
+            if code == 200:
+                held.append(s_)           # never read: the flood backs up through both hops
+        time.sleep(2.5)
+        res = {}
+        def probe(name, fn):
+            t = time.time()
+            try:
+                ok = fn()
+            except Exception:
+                ok = False
+            res[name] = (bool(ok), round(time.time() - t, 2))
+        def est():
+            healthy.sendall(b'again'); return recv_exact(healthy, 5, DEADLINE) == b'again'
+        def fresh():
+            s_, code, head, rest = http_connect(q['http'], f'127.0.0.1:{echo.port}', timeout=DEADLINE)
+            s_.settimeout(DEADLINE); s_.sendall(b'ping'); r = recv_exact(s_, 4, DEADLINE); s_.close()
+            return code == 200 and r == b'ping'
+        probe('established:quic-tunnel', est)
+        probe('fresh:quic-tunnel', fresh)
+        for nm, pxx in (('front', front), ('hop', hopq)):
+            probe(f'api:GET /live ({nm})', lambda pxx=pxx: pxx.api('GET', '/live', timeout=DEADLINE)[0] == 200)
+            probe(f'api:GET /status ({nm})', lambda pxx=pxx: pxx.api('GET', '/status', timeout=DEADLINE)[0] == 200)
+        probe('fresh:quic-tunnel (again)', fresh)
+        return {'blocked': len(held), 'probes': res, 'alive': front.alive() and hopq.alive()}
+    finally:
+        for s_ in held:
+            try: s_.close()
+            except OSError: pass
+        front.stop(); hopq.stop()
+
+for nb in ((8, 24) if THOROUGH else (8,)):
+    r = quic_tunnels_blocked(nb)
+    evals += 1
+    if 'error' in r:
+        machinery(f'blocked tunnels over one QUIC connection: {r}')
+    if r['blocked'] < nb // 2:
+        machinery(f'only {r["blocked"]} of {nb} blocked tunnels could be opened')
+    for name, (ok, dt) in r['probes'].items():
+        distinct.add(('quic-tunnels-blocked', name, ok))
+        if not ok:
+            chk.violation('stall.quic-tunnels-blocked', f'blocked:{name}', f'with {r["blocked"]} tunnels over one QUIC connection blocked on clients that do not read, {name}: no answer within {DEADLINE} s (took {dt} s)', {'probe': name, 'blocked': r['blocked']})
+    if not r['alive']:
+        chk.violation('process', 'proxy-died:quic-tunnels-blocked', 'a proxy ended', {})
+    samples.append({'quic_tunnels_blocked': {'blocked': r['blocked'], 'probes': {k: list(v) for k, v in r['probes'].items()}}})
+
 # ---- the access log goes to a sink that stops taking data (a FIFO whose reader stalls - a log shipper, a hung
 #      network file system): finished connections pile up behind it; new connections must still be served and every
 #      API call - log rotation included - must still be answered
